@@ -182,7 +182,8 @@ def shard(s):
     else:
         words = spaces.window_complete_chunks(ALPHA, 4, (L,)) if pre == "DB" else spaces.shard_words(ALPHA, L, pre)
     for seq in words:
-        v, calls = check_case({"kind": "profiles", "seq": seq})
+        with core.istate(seq):
+            v, calls = check_case({"kind": "profiles", "seq": seq})
         acc.states += 1
         acc.traces += 1
         acc.transitions += calls
@@ -210,6 +211,7 @@ def run(tier, seed, t0):
               (300, ("EK" * 150)[:299]), (301, ("K" * 301)[:300]), (270, ("KKKE" * 70)[:269])]
     extra += [(21, "DB"), (34, "DB"), (0, "REJECTED-FIRST"), (27, "ALL20")]
     acc = core.pmap(shard, shards + extra)
+    acc.merge(core.run_optimized(PROP, tier))      # the rejection battery once more under `python -O`
     return core.finish(
         PROP, tier, seed, acc, t0,
         rule="every word over {K,E,G,P} of length 1..%d (plus all completions of three 8-12-mer prefixes, and 44-, 64- and 131-residue sequences with 13 selected windows) x every "
@@ -220,6 +222,10 @@ def run(tier, seed, t0):
         bounds={"N": N, "windows": "1..N+3", "user_group_lists": len(USER_GROUPS)},
         assumptions=["hydropathy profile is on the Uversky-normalised Kyte-Doolittle scale (it equals get_uversky_hydropathy at w=N)",
                      "a single user group may come back 1-D or (1,N)"])
+
+
+def opt_shards(tier):
+    return [(shard, (4, "KE")), (shard, (3, "")), (shard, (0, "REJECTED-FIRST"))]
 
 
 def replay(case):
